@@ -33,7 +33,7 @@ def classes(prog, r):
     return out
 
 
-CHECK = ProfileCheck(PROFILE, ["c05"], nontrivial, classes)
+CHECK = ProfileCheck(PROFILE, ["c05"], nontrivial, classes, directed=__import__("vp.flo.gen", fromlist=["x"]).suspend_scenario, directed_share=2)
 RULE = ("Hypothesis-generated programs (deep frame forests, transitions, conditional auxes, stop/abort bids); after every framer "
         "run actives is compared with the AST-computed outline (cut at a running conditional aux's main frame); + reference "
         "differential. non-trivial = the outline changes >= 2 times and reaches depth >= 2; distinct = distinct program AST")
